@@ -1,8 +1,11 @@
+import PV.Model.Tools2
+import PV.Lemmas.Tools2
 import PV.Model.Base64
 import PV.Model.Docenc
 import PV.Spec.Base64
 import PV.Spec.Records
 import PV.Lemmas.Base64
+import PV.Lemmas.Docenc
 /-
 C09 — base64 codec and docenc round-trip exactly and reject foreign bytes.
 Property theorems only; helper lemmas live in PV/Lemmas/Base64.lean.
@@ -69,12 +72,14 @@ theorem docenc_roundtrip_nl (ds : List (List UInt8)) (h : ∀ d ∈ ds, NlDoc d)
       some (unlines (ds.map encode)) := by
   have hd : PV.Docenc.decode false [] (unlines (ds.map encode)) = some (ds.flatMap (· ++ [10])) := by
     unfold PV.Docenc.decode
+    simp only [PV.Docenc.selectArgs, PV.Docenc.prepare, PV.Docenc.sortIndices, List.foldr_nil, PV.Docenc.uniqAdjacent]
     rw [PV.Lemmas.Base64.split_encoded, PV.Lemmas.Base64.select_nil]
     exact PV.Lemmas.Base64.decodeLines_encoded 10 ds
   rw [hd, Option.map_some]
   congr 1
   unfold PV.Docenc.encode
   simp only [Bool.false_eq_true, if_false]
+  simp only [PV.Docenc.selectArgs, PV.Docenc.prepare, PV.Docenc.sortIndices, List.foldr_nil, PV.Docenc.uniqAdjacent]
   rw [show PV.Gen.docencEncodeStripCr = false from rfl, PV.Lemmas.Base64.docsNl_docs ds h,
     PV.Lemmas.Base64.select_nil]
 
@@ -85,12 +90,14 @@ theorem docenc_roundtrip_nul (ds : List (List UInt8)) (h : ∀ d ∈ ds, d ≠ [
       some (unlines (ds.map encode)) := by
   have hd : PV.Docenc.decode true [] (unlines (ds.map encode)) = some (ds.flatMap (· ++ [0])) := by
     unfold PV.Docenc.decode
+    simp only [PV.Docenc.selectArgs, PV.Docenc.prepare, PV.Docenc.sortIndices, List.foldr_nil, PV.Docenc.uniqAdjacent]
     rw [PV.Lemmas.Base64.split_encoded, PV.Lemmas.Base64.select_nil]
     exact PV.Lemmas.Base64.decodeLines_encoded 0 ds
   rw [hd, Option.map_some]
   congr 1
   unfold PV.Docenc.encode PV.Docenc.docsNul
   simp only [if_true]
+  simp only [PV.Docenc.selectArgs, PV.Docenc.prepare, PV.Docenc.sortIndices, List.foldr_nil, PV.Docenc.uniqAdjacent]
   rw [show PV.Gen.docencEncodeStripCr = false from rfl,
     PV.Lemmas.Base64.splitRecords_flatMap 0 false ds (fun d hd => (h d hd).2),
     PV.Lemmas.Base64.select_nil]
@@ -108,10 +115,58 @@ theorem index_selection {α : Type} (ind : List Nat) (ds : List α)
 theorem index_selection_all {α : Type} (ds : List α) : PV.Docenc.select [] ds = ds := by
   exact PV.Lemmas.Base64.select_nil ds
 
+/-- Index arguments as typed — in any order, repeated, from overlapping ranges — select exactly the documents
+    whose (1-based) number is listed, each once, in document order. -/
+theorem index_selection_any_args {α : Type} (args : List Nat) (ds : List α)
+    (hpos : ∀ i ∈ args, 0 < i) (hne : args ≠ []) :
+    PV.Docenc.selectArgs args ds =
+      ((List.range ds.length).filter (fun k => decide (k + 1 ∈ args))).filterMap (fun k => ds[k]?) := by
+  exact PV.Lemmas.Docenc.selectArgs_spec args ds hpos hne
+
+/-- before the repair (`prepare` = sort only) a repeated index blocked the walk: `1-3 2-4` selected documents 1 and 2. -/
+theorem index_selection_needs_unique :
+    PV.Docenc.select (PV.Docenc.sortIndices [1, 2, 3, 2, 3, 4]) ["a", "b", "c", "d", "e"] = ["a", "b"] := by decide
+
 -- non-vacuity
 example : encode [0x41, 0x42, 0x43] = [0x51, 0x55, 0x4A, 0x44] := by decide
 example : decode [0x51, 0x55, 0x4A, 0x44] = .ok [0x41, 0x42, 0x43] := by decide
 example : NlDoc [0x61, 13, 10, 0x62, 10] := ⟨[[0x61, 13], [0x62]], by decide, by decide⟩
 example : PV.Docenc.select [2, 3] ["a", "b", "c", "d"] = ["b", "c"] := by decide
+example : PV.Docenc.selectArgs [1, 2, 3, 2, 3, 4] ["a", "b", "c", "d", "e"] = ["a", "b", "c", "d"] := by decide
+example : PV.Docenc.selectArgs [3, 1, 3] ["a", "b", "c", "d", "e"] = ["a", "c"] := by decide
+
+/-! #### base64_number (PV.Tools2) -/
+section Number
+open PV.Tools PV.Tools2
+
+/-- tokens are exactly the maximal delimiter-free runs: none is empty, none contains a delimiter, and with the
+    delimiters that separated them they make up the input (here: dropping all delimiters from the input gives the
+    concatenation of the tokens). -/
+theorem tokens_spec (isDelim : UInt8 → Bool) (bs : List UInt8) :
+    (∀ t ∈ tokens isDelim bs, t ≠ [] ∧ ∀ b ∈ t, isDelim b = false) ∧
+    (tokens isDelim bs).flatten = bs.filter (fun b => !isDelim b) := by
+  exact PV.Lemmas.Tools2.tokens_spec isDelim bs
+
+/-- base64_number numbers documents by their 0-based input line, whatever they contain (empty documents, documents
+    without final newline, blank lines inside): the output for `a ++ b` is the output for `a` followed by the output
+    for `b` numbered from `a.length`. -/
+theorem base64_number_compositional (a b : List Line) (i : Nat) :
+    base64NumberFrom i (a ++ b) =
+      (base64NumberFrom i a).bind (fun x => (base64NumberFrom (i + a.length) b).map (x ++ ·)) := by
+  exact PV.Lemmas.Tools2.base64NumberFrom_append a b i
+
+/-- every output line is a non-empty line of its document, free of TAB and LF, followed by TAB and the document's
+    number; an undecodable line aborts the run. -/
+theorem base64_number_lines (ls out : List Line) (h : base64Number ls = some out) :
+    ∀ o ∈ out, ∃ i body, i < ls.length ∧ o = body ++ [9] ++ decimal i ∧ body ≠ [] ∧ (9 : UInt8) ∉ body ∧ (10 : UInt8) ∉ body := by
+  intro o ho
+  obtain ⟨j, body, _, hj, h1, h2, h3, h4⟩ := PV.Lemmas.Tools2.base64NumberFrom_lines ls 0 out h o ho
+  exact ⟨j, body, by simpa using hj, h1, h2, h3, h4⟩
+
+-- "aGk=" = "hi", "" = empty document, "YQoKYgli" = "a\n\nb\tb"
+example : base64Number [[97, 71, 107, 61], [], [89, 81, 111, 75, 89, 103, 108, 105]] =
+    some [[104, 105, 9, 48], [97, 9, 50], [98, 32, 98, 9, 50]] := by decide
+
+end Number
 
 end PV.Props.C09
